@@ -48,21 +48,24 @@ fn in_domain(s: &str) -> bool {
 
 fn name_strategy() -> BoxedStrategy<String> {
     crate::one_of![ 
-        4 => (0u32..40).prop_map(|n| n.to_string()),
-        2 => (0u32..(1 << 30)).prop_map(|n| n.to_string()),
-        3 => (0u32..12).prop_map(|n| format!("f{}", n)),
-        1 => (0u32..(1 << 30)).prop_map(|n| format!("f{}", n)),
-        2 => (0u32..12, 1usize..3).prop_map(|(n, z)| format!("{}{}", "0".repeat(z), n)),
-        1 => (0u32..12).prop_map(|n| format!("+{}", n)),
-        1 => (0u32..12, 1usize..3).prop_map(|(n, z)| format!("f{}{}", "0".repeat(z), n)),
-        1 => (0u32..12).prop_map(|n| format!("f+{}", n)),
-        3 => "[a-z]{1,3}",
-        1 => "[a-zA-Z0-9_+.-]{1,12}",
-        1 => "\\PC{1,6}",
-        1 => Just("f".to_string()),
-        1 => Just("-0".to_string()),
-        1 => Just("ff1".to_string()),
-        1 => "[a-z]{30,60}",
+        16 => (0u32..40).prop_map(|n| n.to_string()),
+        8 => (0u32..(1 << 30)).prop_map(|n| n.to_string()),
+        12 => (0u32..12).prop_map(|n| format!("f{}", n)),
+        4 => (0u32..(1 << 30)).prop_map(|n| format!("f{}", n)),
+        8 => (0u32..12, 1usize..3).prop_map(|(n, z)| format!("{}{}", "0".repeat(z), n)),
+        4 => (0u32..12).prop_map(|n| format!("+{}", n)),
+        4 => (0u32..12, 1usize..3).prop_map(|(n, z)| format!("f{}{}", "0".repeat(z), n)),
+        4 => (0u32..12).prop_map(|n| format!("f+{}", n)),
+        12 => "[a-z]{1,3}",
+        4 => "[a-zA-Z0-9_+.-]{1,12}",
+        4 => "\\PC{1,6}",
+        4 => Just("f".to_string()),
+        4 => Just("-0".to_string()),
+        4 => Just("ff1".to_string()),
+        // the boundary of the domain: the largest numbers below 2^30 (D21)
+        1 => (0u32..3).prop_map(|d| format!("f{}", (1u32 << 30) - 1 - d)),
+        1 => (0u32..3).prop_map(|d| format!("{}", (1u32 << 30) - 1 - d)),
+        4 => "[a-z]{30,60}",
     ]
     .prop_filter("domain", |s| in_domain(s))
     .boxed()
@@ -86,6 +89,17 @@ fn run(c: &SlotSeq, obs: &mut Obs) -> Result<(), String> {
     let mut by_slot: BTreeMap<Slot, String> = BTreeMap::new();
     let mut all: Vec<Slot> = Vec::new();
     let mut max_f: Option<u32> = None;
+    // model of the fresh counter: the smallest number no f<n> name and no fresh slot has used or skipped
+    let mut model_next: u64 = 0;
+    let mut note_f = |n: &str, model_next: &mut u64| {
+        if let Some(r) = n.strip_prefix('f') {
+            if let Ok(x) = r.parse::<u32>() {
+                if r == x.to_string() && (x as u64) < (1u64 << 30) {
+                    *model_next = (*model_next).max(x as u64 + 1);
+                }
+            }
+        }
+    };
     let mut fresh_after_f = false;
     let mut leading_zero_pair = false;
     let record = |name: String, s: Slot, by_name: &mut BTreeMap<String, Slot>, by_slot: &mut BTreeMap<Slot, String>| -> Result<(), String> {
@@ -106,7 +120,23 @@ fn run(c: &SlotSeq, obs: &mut Obs) -> Result<(), String> {
     for (i, op) in c.ops.iter().enumerate() {
         match op {
             SlotOp::Fresh => {
-                let f = Slot::fresh();
+                // the only panic Slot::fresh may raise is the announced exhaustion of the 2^30 fresh numbers, and only
+                // when the model agrees that none is left (a name f<2^30-1>, or a fresh slot with that number, exists)
+                let f = match std::panic::catch_unwind(Slot::fresh) {
+                    Ok(f) => f,
+                    Err(_) => {
+                        let m = crate::engine::take_last_panic().unwrap_or_default();
+                        if m.contains("out of fresh slots") && model_next >= (1u64 << 30) {
+                            obs.label("fresh-numbers-exhausted");
+                            obs.nontrivial = true;
+                            return Ok(());
+                        }
+                        return Err(format!("op {i}: Slot::fresh() panicked ({m}) although fresh numbers from {model_next} on are unused"));
+                    }
+                };
+                if let Ok(k) = f.to_string()[2..].parse::<u64>() {
+                    model_next = model_next.max(k + 1);
+                }
                 if all.contains(&f) {
                     return Err(format!("op {i}: Slot::fresh() returned {:?}, which was obtained before", f));
                 }
@@ -134,6 +164,7 @@ fn run(c: &SlotSeq, obs: &mut Obs) -> Result<(), String> {
             }
             SlotOp::Named(n) => {
                 let s = Slot::named(n);
+                note_f(n, &mut model_next);
                 if let Some(r) = n.strip_prefix('f') {
                     if let Ok(x) = r.parse::<u32>() {
                         if r == x.to_string() {
@@ -178,6 +209,7 @@ fn run(c: &SlotSeq, obs: &mut Obs) -> Result<(), String> {
                 if s != Slot::named(n) {
                     return Err(format!("parser and Slot::named disagree on {:?}", n));
                 }
+                note_f(n, &mut model_next);
                 if re.to_string() != txt {
                     return Err(format!("{txt} prints back as {}", re));
                 }
